@@ -112,7 +112,11 @@ class RustMagicNumberAnalyzer(RustBaseAnalyzer):
             "f32",
             "f64",
         )
+        is_hex = text[:2].lower() == "0x"
         for suffix in suffixes:
+            # "f32"/"f64" at the end of a hex literal are hex digits, not a float suffix
+            if is_hex and suffix.startswith("f"):
+                continue
             if text.endswith(suffix):
                 return text[: -len(suffix)]
         return text
